@@ -210,7 +210,7 @@ Proof.
 Qed.
 
 Lemma dec_bytes_safe maxlen p off : (0 <= off)%Z -> (zlen p <= max_int)%Z -> maxlen < two63 ->
-  safe (fun x => fwd p off (snd x) /\ (zlen (fst x) <= zlen p)%Z) (dec_bytes maxlen p off).
+  safe (fun x => fwd p off (snd x) /\ (zlen (fst x) + 1 <= snd x - off)%Z) (dec_bytes maxlen p off).
 Proof.
   intros Ho Hmax Hml. unfold dec_bytes. destruct (zlen p <=? off)%Z eqn:He; [exact I|].
   destruct (skipn_slice p off ltac:(lia)) as [-> Hl]. cbn [bind].
@@ -223,7 +223,7 @@ Proof.
 Qed.
 
 Lemma dec_string_safe maxlen p off : (0 <= off)%Z -> (zlen p <= max_int)%Z -> maxlen < two63 ->
-  safe (fun x => fwd p off (snd x) /\ (zlen (fst x) <= zlen p)%Z) (dec_string maxlen p off).
+  safe (fun x => fwd p off (snd x) /\ (zlen (fst x) + 1 <= snd x - off)%Z) (dec_string maxlen p off).
 Proof.
   intros. unfold dec_string. destruct (zlen p <=? off)%Z; [exact I|]. apply dec_bytes_safe; assumption.
 Qed.
@@ -322,12 +322,29 @@ Qed.
 
 (* ---- Snapshot.Unmarshal ---- *)
 
-(* the invariant of the Unmarshal loop: the offset is inside the buffer, every DBI object holds at most
-   as many bytes as the buffer, and every DBI object cost at least two bytes of input *)
+(* the weight of the DBI objects decoded so far: their payload plus two bytes (tag, length) each *)
+Definition dbis_weight (l : list dbi_obj) : Z := fold_right (fun o acc => (zlen (o_data o) + 2 + acc)%Z) 0%Z l.
+
+Lemma dbis_weight_app l d : dbis_weight (l ++ [d]) = (dbis_weight l + zlen (o_data d) + 2)%Z.
+Proof.
+  induction l as [|o l IH]; [cbn [app dbis_weight fold_right]; lia|].
+  change (dbis_weight ((o :: l) ++ [d])) with (zlen (o_data o) + 2 + dbis_weight (l ++ [d]))%Z.
+  change (dbis_weight (o :: l)) with (zlen (o_data o) + 2 + dbis_weight l)%Z. lia.
+Qed.
+
+Lemma dbis_weight_bounds l :
+  (2 * Z.of_nat (length l) <= dbis_weight l)%Z /\
+  Forall (fun o => (zlen (o_data o) + 2 <= dbis_weight l)%Z) l.
+Proof.
+  induction l as [|o l [IH1 IH2]]; cbn [length dbis_weight fold_right]; [split; [lia|constructor]|].
+  fold (dbis_weight l). pose proof (zlen_nonneg (o_data o)). split; [lia|].
+  constructor; [lia|]. eapply Forall_impl; [|exact IH2]. intros a Ha. cbv beta in *. lia.
+Qed.
+
+(* the invariant of the Unmarshal loop: the offset is inside the buffer, and the DBI objects decoded so
+   far weigh (payload + 2 bytes each) at most the bytes consumed so far *)
 Definition snap_inv (p : bytes) (st : Z * snap_obj) : Prop :=
-  (0 <= fst st <= zlen p)%Z /\
-  Forall (fun o => (zlen (o_data o) <= zlen p)%Z) (so_dbis (snd st)) /\
-  (2 * Z.of_nat (length (so_dbis (snd st))) <= fst st)%Z.
+  (0 <= fst st <= zlen p)%Z /\ (dbis_weight (so_dbis (snd st)) <= fst st)%Z.
 
 Lemma snap_body_safe p st : snap_inv p st -> (zlen p <= max_int)%Z ->
   safe (fun x => match x with
@@ -335,7 +352,7 @@ Lemma snap_body_safe p st : snap_inv p st -> (zlen p <= max_int)%Z ->
                  | inr s => s = snd st
                  end) (snap_body p st).
 Proof.
-  intros (Ho & Hall & Hcnt) Hmax. destruct st as [off s]. cbn [fst snd] in *. unfold snap_body.
+  intros (Ho & Hw) Hmax. destruct st as [off s]. cbn [fst snd] in *. unfold snap_body.
   destruct (zlen p <=? off)%Z eqn:He; [reflexivity|].
   sbind; [apply (dec_tag_safe p off ltac:(lia))|]. intros [[tag wt] off1] H1. unfold fwd in H1.
   pose proof maxlen_snapshot_small as Hml.
@@ -346,39 +363,44 @@ Proof.
                            end)
                  (do (x, off2) <- get_uint32 p off1 wt; Ok (@inl (Z * snap_obj) snap_obj (off2, k x)))).
   { intros k Hk. unfold get_uint32. sbind; [sbind; [apply expect_wt_safe|intros _ _; apply dec_uint32_safe; lia]|].
-    intros [x off2] H2. cbn [snd] in H2. unfold fwd in H2. cbn [safe bind fst snd i_off]. unfold snap_inv. cbn [fst snd].
-    rewrite Hk. repeat split; try assumption; lia. }
+    intros [x off2] H2. cbn [snd] in H2. unfold fwd in H2. cbn [safe]. unfold snap_inv. cbn [fst snd].
+    rewrite Hk. lia. }
   destruct (tag =? 1); [apply (Hu32 (fun x => mkSnapObj x _ _ _)); reflexivity|].
   destruct (tag =? 4); [apply (Hu32 (fun x => mkSnapObj _ x _ _)); reflexivity|].
   destruct (tag =? 2).
   { unfold get_bytes. sbind; [sbind; [apply expect_wt_safe|intros _ _; apply dec_bytes_safe; try assumption; lia]|].
     intros [msg off2] [H2 Hm]. cbn [fst snd] in H2, Hm. unfold fwd in H2.
-    sbind; [apply meta_unmarshal_safe; lia|]. intros m' _. cbn [safe bind fst snd i_off]. unfold snap_inv. cbn [fst snd so_dbis].
-    repeat split; try assumption; lia. }
+    sbind; [apply meta_unmarshal_safe; lia|]. intros m' _. cbn [safe]. unfold snap_inv. cbn [fst snd so_dbis].
+    lia. }
   destruct (tag =? 3).
   { unfold get_bytes. sbind; [sbind; [apply expect_wt_safe|intros _ _; apply dec_bytes_safe; try assumption; lia]|].
     intros [msg off2] [H2 Hm]. cbn [fst snd] in H2, Hm. unfold fwd in H2.
-    sbind; [apply new_dbi_from_data_safe; lia|]. intros d Hd. cbn [safe bind fst snd i_off]. unfold snap_inv. cbn [fst snd so_dbis].
-    repeat split; try lia.
-    - apply Forall_app. split; [exact Hall|]. constructor; [rewrite Hd; exact Hm|constructor].
-    - rewrite app_length. cbn [length]. lia. }
+    sbind; [apply new_dbi_from_data_safe; lia|]. intros d Hd. cbn [safe]. unfold snap_inv. cbn [fst snd so_dbis].
+    rewrite dbis_weight_app, Hd. lia. }
   sbind; [apply dec_skip_safe; try assumption; lia|]. intros off2 H2. unfold fwd in H2.
-  cbn [safe bind fst snd i_off]. unfold snap_inv. cbn [fst snd]. repeat split; try assumption; lia.
+  cbn [safe]. unfold snap_inv. cbn [fst snd]. lia.
 Qed.
 
 Lemma snap_unmarshal_safe b : (zlen b <= max_int)%Z ->
-  safe (fun s => Forall (fun o => (zlen (o_data o) <= zlen b)%Z) (so_dbis s) /\
-                 (2 * Z.of_nat (length (so_dbis s)) <= zlen b)%Z) (snap_unmarshal b).
+  safe (fun s => (dbis_weight (so_dbis s) <= zlen b)%Z) (snap_unmarshal b).
 Proof.
   intros Hmax. unfold snap_unmarshal.
   apply (loop_safe (snap_body b) (snap_inv b) (fun st => Z.to_nat (zlen b - fst st))).
   - intros st Hi. eapply safe_weaken; [apply (snap_body_safe b st Hi Hmax)|].
     intros [st'|s'] H.
     + destruct H as [Hi' Hlt]. split; [exact Hi'|]. destruct Hi' as (Ho' & _). lia.
-    + subst s'. destruct Hi as (Ho & Hall & Hcnt). split; [exact Hall|lia].
-  - unfold snap_inv. cbn [fst snd so_dbis length]. pose proof (zlen_nonneg b).
-    repeat split; try lia. constructor.
+    + subst s'. destruct Hi as (Ho & Hw). lia.
+  - unfold snap_inv. cbn [fst snd so_dbis dbis_weight fold_right]. pose proof (zlen_nonneg b). lia.
   - cbn [fst]. unfold zlen. lia.
+Qed.
+
+Lemma snap_unmarshal_objs b s : (zlen b <= max_int)%Z -> snap_unmarshal b = Ok s ->
+  (2 * Z.of_nat (length (so_dbis s)) <= zlen b)%Z /\
+  Forall (fun o => (zlen (o_data o) + 2 <= zlen b)%Z) (so_dbis s).
+Proof.
+  intros Hmax H. pose proof (snap_unmarshal_safe b Hmax) as Hs. rewrite H in Hs. cbn [safe] in Hs.
+  destruct (dbis_weight_bounds (so_dbis s)) as [H1 H2]. split; [lia|].
+  eapply Forall_impl; [|exact H2]. intros o Ho. cbv beta in *. lia.
 Qed.
 
 (* ---- the theorems ---- *)
@@ -386,9 +408,13 @@ Qed.
 Theorem custom_decode_safe b : (zlen b <= max_int)%Z -> safe (fun _ => True) (custom_decode b).
 Proof.
   intros Hmax. unfold custom_decode.
-  sbind; [apply (snap_unmarshal_safe b Hmax)|]. intros s [Hall _].
+  pose proof (snap_unmarshal_objs b) as Hobjs.
+  destruct (snap_unmarshal b) as [s| | |] eqn:Hs; cbn [bind safe]; auto;
+    [|pose proof (snap_unmarshal_safe b Hmax) as Hx; rewrite Hs in Hx; exact Hx
+     |pose proof (snap_unmarshal_safe b Hmax) as Hx; rewrite Hs in Hx; exact Hx].
+  destruct (Hobjs s Hmax eq_refl) as [_ Hall].
   sbind; [apply (mapM_safe dbi_content _ (fun _ => True) _ Hall)|].
-  - intros o Ho. apply dbi_content_safe. lia.
+  - intros o Ho. cbv beta in Ho. apply dbi_content_safe. pose proof (zlen_nonneg (o_data o)). lia.
   - intros ds _. exact I.
 Qed.
 
@@ -414,7 +440,6 @@ Theorem dbi_objects_bound b s : (zlen b <= max_int)%Z -> snap_unmarshal b = Ok s
   (2 * length (so_dbis s) <= length b)%nat /\
   Forall (fun o => (length (o_data o) <= length b)%nat) (so_dbis s).
 Proof.
-  intros Hmax H. pose proof (snap_unmarshal_safe b Hmax) as Hs. rewrite H in Hs. cbn [safe] in Hs.
-  destruct Hs as [Hall Hc]. unfold zlen in *. split; [lia|].
+  intros Hmax H. destruct (snap_unmarshal_objs b s Hmax H) as [Hc Hall]. unfold zlen in *. split; [lia|].
   eapply Forall_impl; [|exact Hall]. intros o Ho. cbv beta in Ho. lia.
 Qed.
